@@ -110,6 +110,8 @@ type respScript struct {
 	declared [][2]string
 	undecl   [][2]string
 	method   string
+	// hopTrailer: a hop-by-hop field name that is also announced and sent as a trailer (never checked for arrival)
+	hopTrailer string
 }
 
 func (s *respScript) wire() []byte {
@@ -135,6 +137,9 @@ func (s *respScript) wire() []byte {
 	w.WriteString("Transfer-Encoding: chunked\r\n")
 	if len(s.declared) > 0 {
 		var names []string
+		if s.hopTrailer != "" {
+			names = append(names, s.hopTrailer)
+		}
 		for _, kv := range s.declared {
 			names = append(names, kv[0])
 		}
@@ -160,6 +165,9 @@ func (s *respScript) wire() []byte {
 		w.WriteString("\r\n")
 	}
 	w.WriteString("0\r\n")
+	if s.hopTrailer != "" && len(s.declared) > 0 {
+		fmt.Fprintf(&w, "%s: hop-value\r\n", s.hopTrailer)
+	}
 	for _, kv := range append(append([][2]string{}, s.declared...), s.undecl...) {
 		fmt.Fprintf(&w, "%s: %s\r\n", kv[0], kv[1])
 	}
@@ -282,6 +290,10 @@ func suiteRespPath(e *vh.Env) {
 						}
 					}
 					s.declared = append(s.declared, [2]string{tn, fmt.Sprintf("tv%d", k)})
+					if k == 0 && nd >= 2 && rng.Chance(35) {
+						// a hop-by-hop name among the announced trailers: it is dropped, the others still arrive
+						s.hopTrailer = rng.Pick([]string{"Keep-Alive", "Upgrade", "Proxy-Authenticate"})
+					}
 				}
 				for k := rng.Intn(3); k > 0 && rng.Chance(40); k-- {
 					s.undecl = append(s.undecl, [2]string{fmt.Sprintf("X-Undeclared-%d", k), "uv"})
